@@ -11,6 +11,7 @@ import (
 	"os"
 	"os/exec"
 	"path/filepath"
+	"runtime/debug"
 	"sort"
 	"strconv"
 	"strings"
@@ -103,6 +104,9 @@ func Start(prop string) *Run {
 	}
 	if r.Tier != "quick" && r.Tier != "thorough" {
 		Fatalf("bad tier %q", r.Tier)
+	}
+	if r.IsWorker() {
+		debug.SetMaxStack(512 << 20) // a runaway recursion dies after 512 MiB of stack, not 1 GiB
 	}
 	if r.Scratch == "" {
 		d, err := os.MkdirTemp("", "verif-scratch-")
@@ -329,6 +333,9 @@ func (r *Run) flush(doneThru int, complete bool) {
 	os.Rename(tmp, r.workerOut)
 }
 
+// workerVMLimitKB is the address-space limit of one worker process (ulimit -v, in KiB).
+var workerVMLimitKB = "12582912" // 12 GiB
+
 // Distribute runs f(i) for every i in [0,n) spread over worker *processes* (code under a
 // global controlled scheduler, or code that may crash fatally, needs one process per
 // worker). In the parent it returns after all workers' results are merged; a worker
@@ -400,7 +407,9 @@ func (r *Run) Distribute(n int, f func(i int)) {
 				}
 				args = append(args, "-worker", strconv.Itoa(k), "-nworkers", strconv.Itoa(nw), "-startafter", strconv.Itoa(startAfter),
 					"-workerout", out, "-scratch", wscratch, "-budget", remaining.String())
-				cmd := exec.Command(os.Args[0], args...)
+				// workers run under an address-space limit: code under test that recurses or allocates
+				// without bound must kill one worker, not the machine
+				cmd := exec.Command("/bin/sh", append([]string{"-c", "ulimit -v " + workerVMLimitKB + " 2>/dev/null; exec \"$0\" \"$@\"", os.Args[0]}, args...)...)
 				var buf bytes.Buffer
 				cmd.Stdout, cmd.Stderr = &buf, &buf
 				cmd.Env = append(os.Environ(), "GOMAXPROCS=2")
